@@ -54,13 +54,23 @@ Proof. vm_compute. reflexivity. Qed.
 
 (* the full statement (no guard) is false of the faithful adapter model; each witness is replayed
    on the real code by the check (findings/C16_*.json) *)
-Theorem C16_refuted_selfdestruct_residue : exists st ops,
+Theorem C16_refuted_removed_account_residue : exists st ops,
   first_class (a_init st) ops = 1%nat /\ aoutputs (a_init st) ops <> spec_outputs (spec_init st) ops.
 Proof.
-  exists [contract_acct 11%N 50; plain_acct 12%N 7],
-    [AddBalance 12%N 50; Suicide 11%N; Finalise; Exist 11%N; GetBalance 11%N].
+  exists [contract_acct 11%N 0; plain_acct 12%N 7],
+    [Suicide 11%N; SubBalance 12%N 3; AddBalance 11%N 3; Finalise; Exist 11%N; GetBalance 11%N; GetState 11%N 0%N].
   split; [vm_compute; reflexivity | vm_compute; discriminate].
 Qed.
+
+(* repaired by fix 8b9b1c9 (RemoveAccount also writes the balance record): the former witness of
+   C16.selfdestruct_residue now satisfies the guard and the outputs coincide *)
+Example C16_fixed_selfdestruct_residue :
+  let st := [{| sa_addr := 11%N; sa_bal := 50; sa_nonce := 1; sa_code := 1%N; sa_stor := []; sa_native := false |};
+             plain_acct 12%N 7] in
+  let ops := [AddBalance 12%N 50; Suicide 11%N; Finalise; Exist 11%N; GetBalance 11%N; BlockCommit; Exist 11%N;
+              SubBalance 12%N 57; Finalise; Exist 12%N; GetBalance 12%N] in
+  guardedb (a_init st) ops = true /\ aoutputs (a_init st) ops = spec_outputs (spec_init st) ops.
+Proof. vm_compute. split; reflexivity. Qed.
 
 Theorem C16_refuted_create_over_storage : exists st ops,
   first_class (a_init st) ops = 2%nat /\ aoutputs (a_init st) ops <> spec_outputs (spec_init st) ops.
